@@ -118,6 +118,26 @@ def run(tier):
     ck.notes["scaled_replays"] = len(scaled)
     rej = ck.validate("Trace_GBSelect", traces + tr_scaled, TRACE_CFG, "traces", nontrivial=nontrivial)
     ck.judge(rej, None, {})
+    # the array-level kernels numba.find_first_n / find_last_n (position matrix per group), with boolean masks: a masked row is
+    # scanned like a null-key row
+    rng = Rng(f"C15k-{ck.seed}")
+    kc = []
+    for m in range(0, 5 if tier == "quick" else 6):
+        for codes in itertools.product([-1, 0, 1], repeat=m):
+            for fn in ("first", "last"):
+                for n in range(1, m + 2):
+                    if m >= 4 and rng.random() < 0.5:
+                        continue
+                    kc.append(dict(fn=fn, codes=list(codes), ngroups=rng.pick([2, 3]), n=n, sel=rng.pick([None, [rng.randrange(2) for _ in range(m)], [rng.randrange(2) for _ in range(m)]])))
+    for _ in range(800 if tier == "quick" else 10000):
+        m = rng.randrange(5, 40)
+        kc.append(dict(fn=rng.pick(["first", "last"]), codes=[rng.pick([-1, 0, 1, 2, 3]) for _ in range(m)], ngroups=rng.pick([4, 5]), n=rng.randrange(1, 8),
+                       sel=rng.pick([None, [int(rng.random() < 0.7) for _ in range(m)]])))
+    tk = ck.drive(rowwise.run_find_n, kc, warm_cases=kc[:10])
+    ck.notes["kernel_find_n_calls"] = len(tk)
+    rej = ck.validate("Trace_GBSelect", tk, TRACE_CFG, "kernel_find_n", nontrivial=lambda t: 0 in t["sel"] or NULL in t["keys"] or len(set(t["keys"])) > 1,
+                      key=lambda t: json.dumps([t["kind"], t["n"], t["keys"], t["sel"], t["ngroups"]]))
+    ck.judge(rej, None, {})
     ck.assumptions += ["row identity is carried by the values (value = row position); group sizes >= 2^31 are out of reach"]
     return ck.finish()
 
